@@ -318,6 +318,23 @@ func (e *tsEngine) analyze(f *ssa.Function) (*tsSummary, []tsFinding) {
 					idv = litField(f, al, "header", "slabID")
 				} else if cv, inCallee, ok := constructorField(st.Val, "header", "slabID"); ok && !inCallee {
 					idv = cv // built by a private constructor that is given the id
+				} else if g, lit, call, ok := constructorLiteral(st.Val); ok {
+					// built by a private constructor that is handed the old root and reads the id from it
+					if fv := litField(g, lit, "header", "slabID"); fv != nil {
+						if c2, ok := canon(fv).(*ssa.Call); ok && calleeName(c2) == "SlabID" && callRecv(c2) != nil {
+							if prm, ok := canon(callRecv(c2)).(*ssa.Parameter); ok {
+								for i, q := range g.Params {
+									if q == prm && i < len(call.Call.Args) {
+										for _, ro := range t.obj(call.Call.Args[i]) {
+											if ro == oldKey {
+												t.takeover[o] = oldKey
+											}
+										}
+									}
+								}
+							}
+						}
+					}
 				}
 				eachInstr(f, func(y ssa.Instruction) {
 					c, ok := y.(ssa.CallInstruction)
